@@ -49,6 +49,12 @@ struct Args {
     bound: Option<u32>,
     deadline_s: Option<u64>,
     no_stop: bool,
+    /// parent mode: split the scenario list over this many sequential child processes (memory of
+    /// abandoned executions is returned to the OS between chunks)
+    chunks: Option<usize>,
+    /// child mode: explore only scenarios with index % n == i and write a partial report
+    chunk: Option<(usize, usize)>,
+    partial_out: Option<String>,
 }
 
 fn parse() -> Args {
@@ -65,6 +71,9 @@ fn parse() -> Args {
     let mut bound = None;
     let mut deadline_s = None;
     let mut no_stop = false;
+    let mut chunks = None;
+    let mut chunk = None;
+    let mut partial_out = None;
     let mut i = 3;
     while i < a.len() {
         match a[i].as_str() {
@@ -93,11 +102,26 @@ fn parse() -> Args {
                 deadline_s = a.get(i).and_then(|s| s.parse().ok());
             }
             "--no-stop" => no_stop = true,
+            "--chunks" => {
+                i += 1;
+                chunks = a.get(i).and_then(|s| s.parse().ok());
+            }
+            "--chunk" => {
+                i += 1;
+                chunk = a.get(i).and_then(|s| {
+                    let mut it = s.split('/');
+                    Some((it.next()?.parse().ok()?, it.next()?.parse().ok()?))
+                });
+            }
+            "--partial-out" => {
+                i += 1;
+                partial_out = a.get(i).cloned();
+            }
             _ => usage(),
         }
         i += 1;
     }
-    Args { cmd: a[1].clone(), target: a[2].clone(), tier, jobs, filter, bound, deadline_s, no_stop }
+    Args { cmd: a[1].clone(), target: a[2].clone(), tier, jobs, filter, bound, deadline_s, no_stop, chunks, chunk, partial_out }
 }
 
 fn main() {
@@ -133,12 +157,63 @@ fn check(args: &Args) -> i32 {
         }
     }
     let known = evidence::load_known(prop);
+    let deadline_total = args.deadline_s.unwrap_or(match args.tier {
+        Tier::Quick => 45,
+        Tier::Thorough => 1500,
+    });
+    let n_scn = scns.len();
+    let t0 = std::time::Instant::now();
+    // ---- parent of a chunked run
+    let chunks = args.chunks.unwrap_or(if args.tier == Tier::Thorough && prop == "C13" && args.chunk.is_none() { 12 } else { 1 });
+    if chunks > 1 && args.chunk.is_none() {
+        let exe = std::env::current_exe().expect("current_exe");
+        let mut merged = explore::Report { stats: vec![], violations: vec![], fatal: None, capped: None, wall_s: 0.0, samples: vec![], elision_redone: 0 };
+        for i in 0..chunks {
+            let left = deadline_total.saturating_sub(t0.elapsed().as_secs()).max(5);
+            let out = format!("/verif/target/partial.{}.{}.json", prop, i);
+            let _ = std::fs::remove_file(&out);
+            let mut cmd = std::process::Command::new(&exe);
+            cmd.arg("check").arg(prop).arg("--tier").arg(args.tier.s()).arg("--jobs").arg(args.jobs.to_string());
+            cmd.arg("--chunk").arg(format!("{}/{}", i, chunks)).arg("--partial-out").arg(&out);
+            cmd.arg("--deadline").arg((left / (chunks - i) as u64).max(5).to_string());
+            if let Some(f) = &args.filter {
+                cmd.arg("--filter").arg(f);
+            }
+            if let Some(b) = args.bound {
+                cmd.arg("--bound").arg(b.to_string());
+            }
+            if args.no_stop {
+                cmd.arg("--no-stop");
+            }
+            let st = cmd.status();
+            let part = std::fs::read_to_string(&out).ok().and_then(|t| serde_json::from_str::<serde_json::Value>(&t).ok());
+            match (st, part) {
+                (Ok(s), Some(p)) if s.success() => evidence::merge_partial(&mut merged, &p),
+                (st, _) => {
+                    merged.fatal = Some(format!("chunk {}/{} failed: {:?}", i, chunks, st));
+                    break;
+                }
+            }
+            let _ = std::fs::remove_file(&out);
+            let unknown = merged.violations.iter().any(|v| !known.iter().any(|k| k.matches(&v.sig)));
+            if merged.fatal.is_some() || (unknown && !args.no_stop) {
+                break;
+            }
+        }
+        merged.wall_s = t0.elapsed().as_secs_f64();
+        let extra = props::extra_checks(prop, args.tier, seed);
+        return evidence::finish(prop, args.tier, seed, n_scn, &merged, &known, extra);
+    }
+    if let Some((i, n)) = args.chunk {
+        let mut k = 0usize;
+        scns.retain(|_| {
+            k += 1;
+            (k - 1) % n == i
+        });
+    }
     let cfg = Cfg {
         workers: args.jobs,
-        deadline: Duration::from_secs(args.deadline_s.unwrap_or(match args.tier {
-            Tier::Quick => 45,
-            Tier::Thorough => 1500,
-        })),
+        deadline: Duration::from_secs(deadline_total),
         max_execs_per_scenario: match args.tier {
             Tier::Quick => 3_000_000,
             Tier::Thorough => 400_000_000,
@@ -147,9 +222,11 @@ fn check(args: &Args) -> i32 {
         stop_on_unknown: !args.no_stop,
         iterate_bounds: true,
     };
-    let n_scn = scns.len();
     let is_known = |sig: &str| known.iter().any(|k| k.matches(sig));
     let rep = explore::explore(scns, &cfg, &is_known);
+    if let Some(out) = &args.partial_out {
+        return evidence::write_partial(out, &rep);
+    }
     let extra = props::extra_checks(prop, args.tier, seed);
     evidence::finish(prop, args.tier, seed, n_scn, &rep, &known, extra)
 }
